@@ -70,6 +70,14 @@ def r08_1(ctx: Ctx) -> None:
         loop_filters[id(loop)] = filters
         names = [dotted(n)[5:] for expr in resolved for n in ast.walk(expr) if isinstance(n, ast.Attribute) and dotted(n)
                  and dotted(n).startswith("self.") and dotted(n)[5:] in lists]
+        # plain aliases of the lists
+        from ..loopview import resolve_alias as _alias
+        for expr in resolved:
+            for n in ast.walk(expr):
+                if isinstance(n, ast.Name):
+                    target = _alias(func, n)
+                    if target is not n and dotted(target) and dotted(target).startswith("self.") and dotted(target)[5:] in lists:
+                        names.append(dotted(target)[5:])
         return sorted(set(names))
     all_loops = [n for n in walk_local(func) if isinstance(n, ast.For)]
     for loop in all_loops:
@@ -390,10 +398,28 @@ def r08_5(ctx: Ctx) -> None:
                     loop_iter_name = source
             else:
                 break
+        # plain aliases of the record's lists (`regions = self._regions`) are read through
+        from ..loopview import resolve_alias as _alias
+        aliases = {}
+        for name_node in [x for x in ast.walk(func) if isinstance(x, ast.Name)]:
+            target = _alias(func, name_node)
+            if target is not name_node and dotted(target) and dotted(target).startswith("self.") and dotted(target)[5:] in lists:
+                aliases[name_node.id] = dotted(target)
+
+        def _unalias(expr: ast.AST) -> ast.AST:
+            class _U(ast.NodeTransformer):
+                def visit_Name(self, node: ast.Name) -> ast.AST:  # noqa: N802
+                    if node.id in aliases and isinstance(node.ctx, ast.Load):
+                        return ast.copy_location(ast.parse(aliases[node.id], mode="eval").body, node)
+                    return node
+            from ..astutil import clone as _clone
+            return _U().visit(_clone(expr))
+        source = _unalias(source)
         windows = [n for n in ast.walk(source) if isinstance(n, ast.Subscript) and isinstance(n.slice, ast.Slice)
                    and dotted(n.value) and dotted(n.value).startswith("self.") and dotted(n.value)[5:] in lists
                    and (n.slice.lower is not None or n.slice.upper is not None)]
-        bounded = [w for w in windows if any(node is w or txt(node) == txt(w) for node, _, _, _ in scan_bounds(func))
+        bounded = [w for w in windows if any(node is w or txt(node) == txt(w) or txt(_unalias(node)) == txt(w)
+                                             for node, _, _, _ in scan_bounds(func))
                    or "bisect" in txt(inline_reaching(cfg, loop, w))]
         for window in bounded:
             lst = dotted(window.value)
@@ -413,7 +439,7 @@ def r08_5(ctx: Ctx) -> None:
             for call in calls(func):
                 if isinstance(call.func, ast.Attribute) and isinstance(loop_iter_name, ast.Name) and txt(call.func.value) == loop_iter_name.id \
                         and call.func.attr in ("append", "insert", "extend") and call.args:
-                    resolved_extra += " " + txt(inline_reaching(cfg, call, call.args[-1]))
+                    resolved_extra += " " + txt(_unalias(inline_reaching(cfg, call, call.args[-1])))
             first_included = any(f"{lst}{idx}" in text + extra + resolved_extra for idx in ("[:1]", "[0]", "[0:1]"))
             ctx.ob("R08.5", REC, loop, qual, f"window over {lst}", first_included,
                    "the window over the sorted regions around the gene's bisection point also offers the gene to the first "
